@@ -1,4 +1,5 @@
 import FxVerif.Model.C14
+import FxVerif.Model.C14Acct
 import FxVerif.Model.Util
 /-! line-protocol driver for the C14 model: `lake env lean --run Driver/C14.lean < ops.txt` -/
 open FxVerif FxVerif.Util FxVerif.Model.C14
@@ -12,7 +13,7 @@ def showEntries (es : List (Time × Nat × Nat)) : String :=
 /-- accounts whose balances are observed: users / targets (< 100) and the bonded, not-bonded and gov pools -/
 def observed (a : Addr) : Bool := a < 100 || a == bondedPool || a == notBondedPool || a == govMod
 
-def showState (s : State) : String :=
+def showStateS (s : State) : String :=
   " ".intercalate [
     s!"T={s.now}",
     sortShow "B" ((s.bal.filter (fun p => observed p.1.1)).map fun p => ([p.1.1, p.1.2], s!"{p.1.1}/{p.1.2}={p.2}")),
@@ -41,6 +42,10 @@ def showState (s : State) : String :=
       let l := lockedOf s p.1 d
       if l > 0 then some ([p.1, d], s!"{p.1}/{d}={l}") else none))
   ]
+
+/-- the store-level state, then the observed addresses (users / targets) that exist as accounts -/
+def showState (a : AState) : String :=
+  showStateS a.s ++ " " ++ sortShow "AC" (((a.accts.filter (· < 100)).eraseDups).map fun x => ([x], s!"{x}"))
 
 def nat? (w : String) : Option Nat := w.toNat?
 
@@ -92,60 +97,72 @@ def parseOp (ws : List String) : Option Op :=
        if order == "ft" || order == "tf" then some (.migrate f t (sigOkOf f t sg order)) else none
   | _ => none
 
-def stepLine (s : State) (line : String) : State × String :=
+def modAccts : List Addr := [bondedPool, notBondedPool, feeCollector, govMod]
+
+def stepLine (a : AState) (line : String) : AState × String :=
+  let s := a.s
   match words line with
   | ["reset", ub, dp, vp, md, me, nu, np] =>
     match nat? ub, nat? dp, nat? vp, nat? md, nat? me, nat? nu, nat? np with
     | some ub, some dp, some vp, some md, some me, some nu, some np =>
-      ({ unbondTime := ub, depPeriod := dp, votePeriod := vp, minDeposit := md, maxEntries := me,
-         nextUnbId := nu, blockFirstId := nu, nextProp := np }, "ok")
-    | _, _, _, _, _, _, _ => (s, "bad-op")
-  | "reset" :: _ => ({}, "ok")
+      ({ s := { unbondTime := ub, depPeriod := dp, votePeriod := vp, minDeposit := md, maxEntries := me,
+                nextUnbId := nu, blockFirstId := nu, nextProp := np }, accts := modAccts }, "ok")
+    | _, _, _, _, _, _, _ => (a, "bad-op")
+  | "reset" :: _ => ({ accts := modAccts }, "ok")
   | ["val", v, tok, per] =>
     match nat? v, nat? tok, nat? per with
     | some v, some tok, some per =>
-      ({ s with vals := ins s.vals v, valTok := put s.valTok v tok, period := put s.period v per }, "ok")
-    | _, _, _ => (s, "bad-op")
-  | ["vest", a, k, st, en, orig, per] =>
-    match nat? a, nat? k, nat? st, nat? en, parseCoins orig, parsePeriods per with
-    | some a, some k, some st, some en, some orig, some per =>
-      ({ s with vest := put s.vest a { kind := k, start := st, stop := en, orig := orig, periods := per } }, "ok")
-    | _, _, _, _, _, _ => (s, "bad-op")
+      ({ a with s := { s with vals := ins s.vals v, valTok := put s.valTok v tok, period := put s.period v per } }, "ok")
+    | _, _, _ => (a, "bad-op")
+  | ["vest", x, k, st, en, orig, per] =>
+    match nat? x, nat? k, nat? st, nat? en, parseCoins orig, parsePeriods per with
+    | some x, some k, some st, some en, some orig, some per =>
+      ({ a with s := { s with vest := put s.vest x { kind := k, start := st, stop := en, orig := orig, periods := per } } }, "ok")
+    | _, _, _, _, _, _ => (a, "bad-op")
   | ["migratew", f, cls, b, hx, signer, order] =>
     -- a migration whose target is spelled: class, the bytes spelled, HexToAddress of the string; the signer signed
     -- (prefix, from, bytes) (or the swapped order)
     match nat? f, nat? cls, nat? b, nat? hx, nat? signer with
     | some f, some cls, some b, some hx, some signer =>
-      if order != "ft" && order != "tf" then (s, "bad-op") else
+      if order != "ft" && order != "tf" then (a, "bad-op") else
       let fields := if order == "ft" then ["prefix", "from", "to"] else ["prefix", "to", "from"]
       let sig : Nat × List Nat := (signer, signedBytes fields pfxBytes (fun a => [a]) f b)
       let res := migrateMsgP (H := List Nat) (S := Nat × List Nat) id
         (fun h sg => if sg.1 != 0 && sg.2 == h then some sg.1 else none) pfxBytes (fun a => [a]) cfg
         Gen.C14.handlerOrder Gen.C14.migrateHandlers s f { cls := cls, bytes := b, hex := hx } sig
       match res with
-      | .ok s' => (s', "ok " ++ showState s')
-      | .error e => (s, errName e ++ " " ++ showState s)
-    | _, _, _, _, _ => (s, "bad-op")
+      | .ok s' =>
+        -- the address the message server derived from the string receives (and is the account the statements create)
+        let a' := acceptA Gen.C14.handlerOrder a s' ((parseAt cfg.toParseSrv { cls := cls, bytes := b, hex := hx }).getD hx)
+        (a', "ok " ++ showState a')
+      | .error e => (a, errName e ++ " " ++ showState a)
+    | _, _, _, _, _ => (a, "bad-op")
   | ["txblock", dt, fee, txs, f, t, signer, order] =>
     match nat? dt, nat? fee, nat? txs, nat? f, nat? t, nat? signer with
     | some dt, some fee, some txs, some f, some t, some sg =>
-      if order != "ft" && order != "tf" then (s, "bad-op") else
-      let (s', r) := txBlock cfg Gen.C14.handlerOrder Gen.C14.migrateHandlers s dt fee txs f t (sigOkOf f t sg order)
-      (s', r ++ " " ++ showState s')
-    | _, _, _, _, _, _ => (s, "bad-op")
+      if order != "ft" && order != "tf" then (a, "bad-op") else
+      let (a', r) := txBlockA cfg Gen.C14.handlerOrder Gen.C14.migrateHandlers a dt fee txs f t (sigOkOf f t sg order)
+      (a', r ++ " " ++ showState a')
+    | _, _, _, _, _, _ => (a, "bad-op")
   | ["genesis"] =>
     -- the migrate module's state exported and imported again (ExportGenesis / InitGenesis as read from the code)
-    let s' := genesisRoundTrip cfg s
-    (s', "ok " ++ showState s')
-  | ["key", a] =>
-    match nat? a with
-    | some a => ({ s with hasKey := ins s.hasKey a }, "ok")
-    | none => (s, "bad-op")
+    let a' := { a with s := genesisRoundTrip cfg s }
+    (a', "ok " ++ showState a')
+  | ["key", x] =>
+    -- an account with a public key
+    match nat? x with
+    | some x => ({ a with s := { s with hasKey := ins s.hasKey x }, accts := ins a.accts x }, "ok")
+    | none => (a, "bad-op")
+  | ["acct", x] =>
+    -- an account (no usable key)
+    match nat? x with
+    | some x => ({ a with accts := ins a.accts x }, "ok")
+    | none => (a, "bad-op")
   | ws =>
     match parseOp ws with
     | some op =>
-      let (s', r) := stepP cfg Gen.C14.handlerOrder Gen.C14.migrateHandlers s op
-      (s', r ++ " " ++ showState s')
-    | none => (s, "bad-op")
+      let (a', r) := stepA cfg Gen.C14.handlerOrder Gen.C14.migrateHandlers a op
+      (a', r ++ " " ++ showState a')
+    | none => (a, "bad-op")
 
-def main : IO Unit := runDriver stepLine ({} : State)
+def main : IO Unit := runDriver stepLine ({ accts := modAccts } : AState)
